@@ -177,6 +177,12 @@ func main() {
 		_, v := runTail(c)
 		return v
 	})
+	r.RegisterReplay("bigarg", func(pj json.RawMessage) *mc.Viol {
+		var c bigCase
+		json.Unmarshal(pj, &c)
+		_, v := runBig(c)
+		return v
+	})
 	hs := histories()
 	for _, h := range hs {
 		h.Register(r)
@@ -234,6 +240,22 @@ func main() {
 	})
 	r.Set("truncations_with_tail_in_spare_capacity", len(tails))
 
+	// (C) big integers and key objects of the ecdsa package
+	var bigs []bigCase
+	for _, op := range bigOps {
+		for _, cn := range bigCurveNames {
+			bigs = append(bigs, bigCase{Op: op, Curve: cn})
+		}
+	}
+	r.Par(len(bigs), func(i int) {
+		out, v := runBig(bigs[i])
+		if v != nil {
+			r.Violation("bigarg", bigs[i], v)
+		}
+		r.Case(fmt.Sprintf("big-%+v", bigs[i]), true, "bigarg:"+out)
+	})
+	r.Set("big_integer_argument_cases", len(bigs))
+
 	// (B)
 	depth := mc.Pick(r, 3, 4)
 	for _, h := range hs {
@@ -241,7 +263,7 @@ func main() {
 	}
 	r.Par(len(hs), func(i int) { hs[i].Run(r) })
 	r.Set("history_depth", depth)
-	r.SetRule("(A) every operation x every byte-slice argument x spare capacity {0,1,16,64,512} x fill {00,AA,FF} inside a guarded buffer; non-trivial = spare capacity > 0. (B) every sequence up to the depth over the per-type operation menu (snapshot request fields, snapshot encoding, finalize valid/invalid, evaluate, marshal again, verify) on one request state / issuer; every hand-out is compared after every later step")
+	r.SetRule("(A) every operation x every byte-slice argument x spare capacity {0,1,16,64,512} x fill {00,AA,FF} inside a guarded buffer; non-trivial = spare capacity > 0. (C) every ecdsa operation taking *big.Int values or key objects x 4 curves: all big integers of the arguments compared before/after, call repeated on the same objects. (B) every sequence up to the depth over the per-type operation menu (snapshot request fields, snapshot encoding, finalize valid/invalid, evaluate, marshal again, verify) on one request state / issuer; every hand-out is compared after every later step")
 	r.Assume("results are compared through a digest of everything the operation returns, under a per-case deterministic entropy stream, so also randomised operations must give identical results across capacities",
 		"quicwire.Append* are excluded: writing behind len(dst) is their contract (C19 checks it)",
 		"only the goroutine-local view is checked here; concurrent sharing is C17")
